@@ -175,7 +175,7 @@ class Driver:
             return []
         inp = "".join(json.dumps(l, separators=(",", ":"), ensure_ascii=True) + "\n" for l in lines)
         p = subprocess.run([str(DRIVER)], input=inp, capture_output=True, text=True)
-        outs = p.stdout.splitlines()
+        outs = p.stdout.split("\n")  # not splitlines(): U+0085/U+2028/U+2029 may occur inside JSON strings
         res = []
         for i in range(len(lines)):
             if i < len(outs):
